@@ -79,7 +79,27 @@ Fixpoint set_pfs (js : list job) (pfs : list (result str)) : list job :=
       :: set_pfs js' (match pfs with _ :: t => t | [] => [] end)
   end.
 
-Definition fill_call (k : case_C17) : call :=
+(* "The selected jobs" are the SET of jobs the job_ids iterable names: an id that occurs twice selects its job once
+   (first occurrences, in order).  Since the repair "a job id named twice in job_ids selects its job once" this is what
+   create_linked_view does with the list (dict.fromkeys), so model and oracle both work on [selected_set]. *)
+Fixpoint dedup_jobs (seen : list path) (js : list job) (xs : list SV.Export.job) : list job * list SV.Export.job :=
+  match js, xs with
+  | j :: js', x :: xs' =>
+      if path_mem (j_dir j) seen then dedup_jobs seen js' xs'
+      else let '(a, b) := dedup_jobs (j_dir j :: seen) js' xs' in (j :: a, x :: b)
+  | _, _ => (js, xs)
+  end.
+
+Definition selected_set (k : case_C17) : case_C17 :=
+  let c := k_call k in
+  let d := dedup_jobs [] (c_jobs c) (k_xjobs k) in
+  {| k_xjobs := snd d; k_xoracle := k_xoracle k; k_spec := k_spec k; k_pre := k_pre k;
+     k_call := {| c_cwd := c_cwd c; c_prefix := c_prefix c; c_jobs := fst d; c_pfmake := c_pfmake c; c_all := c_all c |};
+     k_hint := k_hint k; k_res := k_res k; k_post := k_post k; k_hint2 := k_hint2 k; k_res2 := k_res2 k;
+     k_ops2 := k_ops2 k; k_post2 := k_post2 k; k_sprefix := k_sprefix k; k_hint3 := k_hint3 k; k_res3 := k_res3 k;
+     k_post3 := k_post3 k |}.
+
+Definition fill_raw (k : case_C17) : call :=
   let c := k_call k in
   let js := set_items (k_xoracle k) (c_jobs c) (k_xjobs k) in
   match derive_pf k with
@@ -88,6 +108,8 @@ Definition fill_call (k : case_C17) : call :=
       {| c_cwd := c_cwd c; c_prefix := c_prefix c; c_jobs := set_pfs js pfs;
          c_pfmake := pm; c_all := c_all c |}
   end.
+
+Definition fill_call (k : case_C17) : call := fill_raw (selected_set k).
 
 Definition res_exn {A} (r : result A) : option exn := match r with Ok _ => None | Err e => Some e end.
 Definition oexn_eqb (a b : option exn) : bool :=
@@ -254,27 +276,8 @@ Definition holds_core (pre : node) (c : call) (sprefix : path) (accepted : bool)
 
 Definition is_ok {A} (r : result A) : bool := match r with Ok _ => true | Err _ => false end.
 
-(* "The selected jobs" are the SET of jobs the job_ids iterable names: an id that occurs twice selects its job once.
-   The oracle speaks about that set (first occurrences, in order), whatever the implementation does with the list. *)
-Fixpoint dedup_jobs (seen : list path) (js : list job) (xs : list SV.Export.job) : list job * list SV.Export.job :=
-  match js, xs with
-  | j :: js', x :: xs' =>
-      if path_mem (j_dir j) seen then dedup_jobs seen js' xs'
-      else let '(a, b) := dedup_jobs (j_dir j :: seen) js' xs' in (j :: a, x :: b)
-  | _, _ => (js, xs)
-  end.
-
-Definition selected_set (k : case_C17) : case_C17 :=
-  let c := k_call k in
-  let '(js, xs) := dedup_jobs [] (c_jobs c) (k_xjobs k) in
-  {| k_xjobs := xs; k_xoracle := k_xoracle k; k_spec := k_spec k; k_pre := k_pre k;
-     k_call := {| c_cwd := c_cwd c; c_prefix := c_prefix c; c_jobs := js; c_pfmake := c_pfmake c; c_all := c_all c |};
-     k_hint := k_hint k; k_res := k_res k; k_post := k_post k; k_hint2 := k_hint2 k; k_res2 := k_res2 k;
-     k_ops2 := k_ops2 k; k_post2 := k_post2 k; k_sprefix := k_sprefix k; k_hint3 := k_hint3 k; k_res3 := k_res3 k;
-     k_post3 := k_post3 k |}.
-
 Definition holds_C17 (k : case_C17) : bool :=
-  holds_core (k_pre k) (fill_call (selected_set k)) (k_sprefix k) (is_ok (k_res k)) (k_post k)
+  holds_core (k_pre k) (fill_call k) (k_sprefix k) (is_ok (k_res k)) (k_post k)
              (k_res2 k) (N.eqb (k_ops2 k) 0) (k_post2 k) (k_res3 k) (k_post3 k).
 
 Definition violation_C17 (k : case_C17) : bool := negb (holds_C17 k).
@@ -294,31 +297,16 @@ Fixpoint has_job_dir (n : node) : bool :=
   | _ => false
   end.
 
-(* 6 = lexical instead of physical paths: a component of the view prefix, or of the path of a selected job, is a
-   symbolic link (the spelling of the directory differs from its physical location in the tree before the call).
-   os.path.relpath computes the link targets lexically, and _analyze_view compares os.path.realpath of a link with
-   the spelling job.path. *)
-Definition through_symlink (w : node) (p : path) : bool := negb (path_eqb (phys w p) p).
-Definition lexical_paths (k : case_C17) : bool :=
-  let c := k_call k in
-  through_symlink (k_pre k) (vprefix c (c_prefix c))
-  || existsb (fun j => through_symlink (k_pre k) (j_dir j)) (c_jobs c).
-
-(* 7 = the job_ids iterable names a job twice *)
-Definition repeated_id (k : case_C17) : bool := negb (pnodupb (map j_dir (c_jobs (k_call k)))).
-
-(* open findings only: 5 = the leaf name used as a token, 6 = lexical paths, 7 = a repeated id *)
+(* open finding only: 5 = the leaf name used as a token *)
 Definition classify_C17 (k : case_C17) : N :=
   let c := fill_call k in
-  let vp := vprefix c (c_prefix c) in
-  if repeated_id k then 7 else
+  let vp := phys (k_pre k) (vprefix c (c_prefix c)) in
   match make_links c with
   | Err _ => 0
   | Ok lk =>
       let ks := keys_of lk in
       if existsb nonfinal_has_job ks
               || match get (k_pre k) vp with Some n => has_job_dir n | None => false end then 5
-      else if lexical_paths k then 6
       else 0
   end.
 
